@@ -210,11 +210,18 @@ def correspond(ctx):
                 items += [(lab + '=' + rng.choice([e['val'], 'a:b', 'x=y:z', '>=2.0 as.zero', '${Variables:rho}', '']), True), (lab, False)]
     for _ in range(150): items.append((''.join(rng.choice('Tab-le:Form= x') for _ in range(rng.randint(0, 14))), rng.random() < 0.5))
     items += [('Table-Form:tb:x=1:2', True), (' Table-Form :tb:x', False), ('Table-Form:tb=3', True), ('Pair:A-B', True), ('NoColon=1', True), ('Table-Form:a:b:c=d', True)]
+    if ctx['thorough']:
+        # small scope, exhaustively: every text of up to 5 characters over ':', '=', a letter, a blank and 'T' (and the Table-Form prefix before each)
+        import itertools
+        for n_ in range(0, 6):
+            for t in itertools.product(':=a T', repeat=n_):
+                t = ''.join(t); items += [(t, True), (t, False)]
+                if n_ <= 4: items += [('Table-Form' + t, True), ('Table-Form' + t, False)]
     items = [(t, hv) for (t, hv) in items if all(ord(ch) < 128 for ch in t)]
     PRE_LAB = 'From Coq Require Import List ZArith.\nFrom V Require Import lib.Common model.Ini model.ItemLabel.\nImport ListNotations.\nLocal Open Scope Z_scope.\n' \
               'Definition enc_s (s : list Z) : list Z := Z.of_nat (length s) :: s.\n' \
               'Definition run_label (t : list Z) (hv : bool) : list Z := match override_tuple t hv with None => [0] | Some (s, k, v) => 1 :: enc_s s ++ enc_s k ++ match v with Some x => 1 :: enc_s x | None => [0] end end.\n'
-    lres = sc.eval_results('C14l', PRE_LAB, ['(run_label [%s] %s)' % ('; '.join('%d' % ord(ch) for ch in t), 'true' if hv else 'false') for (t, hv) in items], chunk=100)
+    lres = sc.eval_results('C14l', PRE_LAB, ['(run_label [%s] %s)' % ('; '.join('%d' % ord(ch) for ch in t), 'true' if hv else 'false') for (t, hv) in items], chunk=400 if ctx['thorough'] else 100)
     from atsim.potentials.tools.potable import _create_override_tuple
     def dec_lab(zs):
         if zs[0] == 0: return None
